@@ -502,9 +502,10 @@ static void FuncACOTH(TempResult* pResult, TempResult const* pArgs, unsigned Arg
     }
 }
 
-#define MInt    (1 << TempInt)
-#define MFloat  (1 << TempFloat)
-#define MString (1 << TempString)
+/* argument type masks are sets of TempType values (as DeduceExpectTypeErrMsgMask() expects) */
+#define MInt    TempInt
+#define MFloat  TempFloat
+#define MString TempString
 #define MAll    (MInt | MFloat | MString)
 
 tFunction const Functions[] = {
